@@ -440,3 +440,65 @@ func VH_C10_schedules() {
 	zz.Assert(c.Schedules[0].ScheduleEntry.Id != c.Schedules[1].ScheduleEntry.Id, "each_schedule_binding_has_its_own_id")
 	zz.Reach("end")
 }
+
+// VH_C10_v0: the legacy (v0) format: up to two onKubernetesEvent bindings with
+// their own event lists, names, filters and selectors plus a schedule: each
+// binding is converted on its own, in declared order, with the v0 defaults.
+func VH_C10_v0() {
+	cv0 := &HookConfigV0{}
+	nk := zz.Len("nkube", 1, 2)
+	evs := [][]string{nil, {"add"}, {"delete"}, {"update", "delete"}, {"add", "update", "delete"}}
+	want := [][]kemtypes.WatchEventType{
+		{kemtypes.WatchEventAdded, kemtypes.WatchEventModified, kemtypes.WatchEventDeleted},
+		{kemtypes.WatchEventAdded},
+		{kemtypes.WatchEventDeleted},
+		{kemtypes.WatchEventModified, kemtypes.WatchEventDeleted},
+		{kemtypes.WatchEventAdded, kemtypes.WatchEventModified, kemtypes.WatchEventDeleted},
+	}
+	ei := make([]int, nk)
+	for i := 0; i < nk; i++ {
+		si := strconv.Itoa(i)
+		ei[i] = zz.Len("events"+si, 0, len(evs)-1)
+		k := OnKubernetesEventConfigV0{Kind: "Pod", EventTypes: evs[ei[i]]}
+		k.Name = zz.OneOf("kname"+si, "", "kA")
+		k.JqFilter = zz.OneOf("kjq"+si, "", ".spec")
+		k.AllowFailure = zz.Bool("kallow" + si)
+		if zz.Bool("kobject" + si) {
+			k.ObjectName = "obj" + si
+		}
+		cv0.OnKubernetesEvent = append(cv0.OnKubernetesEvent, k)
+	}
+	if zz.Bool("with_schedule") {
+		cv0.Schedule = []ScheduleConfigV0{{Name: zz.OneOf("sname", "", "s1"), Crontab: "* * * * *", AllowFailure: zz.Bool("sallow")}}
+	}
+	c := &HookConfig{Version: "v0", V0: cv0}
+	err := cv0.ConvertAndCheck(c)
+	zz.Assert(err == nil, "valid_config_loads")
+	if err != nil {
+		return
+	}
+	zz.Assert(len(c.OnKubernetesEvents) == nk && len(c.Schedules) == len(cv0.Schedule), "declared_bindings_only")
+	for i := 0; i < nk && i < len(c.OnKubernetesEvents); i++ {
+		in, out := cv0.OnKubernetesEvent[i], c.OnKubernetesEvents[i]
+		zz.Assert(out.BindingName == vhOrDefault(in.Name, "onKubernetesEvent"), "v0_binding_name_default")
+		zz.Assert(out.AllowFailure == in.AllowFailure, "v0_allow_failure_carried")
+		zz.Assert(out.Monitor != nil && out.Monitor.JqFilter == in.JqFilter && out.Monitor.Kind == "Pod", "v0_monitor_fields_carried")
+		got := out.Monitor.EventTypes
+		w := want[ei[i]]
+		// a v0 binding without an event list: the repository documents no default for the
+		// legacy format (the code yields an empty list); only declared lists are judged
+		if ei[i] != 0 {
+			zz.Assert(len(got) == len(w), "v0_event_types_are_the_binding_s_own")
+			for j := 0; j < len(got) && j < len(w); j++ {
+				zz.Assert(got[j] == w[j], "v0_event_types_are_the_binding_s_own")
+			}
+		}
+		zz.Assert((out.Monitor.NameSelector != nil) == (in.ObjectName != ""), "v0_object_name_becomes_name_selector")
+		zz.Assert(out.Monitor.KeepFullObjectsInMemory, "v0_keeps_full_objects")
+	}
+	for i := range c.Schedules {
+		zz.Assert(c.Schedules[i].BindingName == vhOrDefault(cv0.Schedule[i].Name, "schedule"), "schedule_name_default")
+		zz.Assert(c.Schedules[i].Queue == "main" && c.Schedules[i].AllowFailure == cv0.Schedule[i].AllowFailure, "schedule_settings_carried")
+	}
+	zz.Reach("end")
+}
